@@ -834,7 +834,9 @@ stored frame, in stored order, in memory and after a file round trip). -/
 /-- **Which frames are stored, and their dimension index values.**  The constructor accepts planes at pairwise different
 distances; a frame exists exactly for every segment of the loop and every kept plane (all planes, or the non-empty ones
 with `omit_empty_frames`) unless the segment is absent there and empty frames are omitted; its dimension index value is
-1 + the number of kept planes before its plane along the normal. -/
+1 + the number of kept planes before its plane along the normal; the plane whose position it records (`posPlane`) is the
+plane whose pixels it carries (`plane`) — in the model because `planeFrames` writes `plane_index` into both, which is
+what the regenerated loop-body block `Gen.frameBookkeeping` says (`frame_loop_uses_the_source`). -/
 theorem stored_frames_and_their_index_values (P : Nat → V3) (rowCos colCos : V3) (nonempty : List Bool)
     (hinj : ∀ a < nonempty.length, ∀ b < nonempty.length, distOf P rowCos colCos a = distOf P rowCos colCos b → a = b)
     (om : Bool) (segs : List (Option Nat)) (present : Option Nat → Nat → Bool) :
@@ -842,34 +844,46 @@ theorem stored_frames_and_their_index_values (P : Nat → V3) (rowCos colCos : V
       ∀ f : Frame, f ∈ frames ↔
         f.seg ∈ segs ∧ f.plane ∈ keptPlanes nonempty om ∧ skipped f.seg (omitEff nonempty om) (present f.seg f.plane) = false ∧
         f.div = 1 + (((keptPlanes nonempty om).filter
-          (fun k => decide (distOf P rowCos colCos k < distOf P rowCos colCos f.plane))).length : Int) :=
+          (fun k => decide (distOf P rowCos colCos k < distOf P rowCos colCos f.plane))).length : Int) ∧
+        f.posPlane = f.plane :=
   mem_segFrames P rowCos colCos nonempty hinj om segs present
 
-/-- **Every stored frame carries the position of its own input plane** (by induction over the frames): the per-frame
-positions, in stored order, are `P (plane of the frame)` — whatever the order of the input planes, the handedness, the
-omitted planes and the skipped frames. -/
+/-- **Every stored frame carries the position of its own input plane**: the per-frame positions, in stored order, are
+`P (posPlane of the frame)`, and `posPlane` is the plane the frame's pixels come from — whatever the order of the input
+planes, the handedness, the omitted planes and the skipped frames.  (The first half is how the model looks positions up;
+the second half is the content: it holds because the loop indexes `pixel_array` and `plane_positions` with the same
+`plane_index`, tied to the source by `Gen.frameBookkeeping` and, independently, by the L1 stream `frames` + oracle.) -/
 theorem stored_frame_positions (P : Nat → V3) (rowCos colCos : V3) (nonempty : List Bool)
     (hinj : ∀ a < nonempty.length, ∀ b < nonempty.length, distOf P rowCos colCos a = distOf P rowCos colCos b → a = b)
     (om : Bool) (segs : List (Option Nat)) (present : Option Nat → Nat → Bool) (frames : List Frame)
     (hok : segFrames ((List.range nonempty.length).map P) rowCos colCos nonempty om segs present = .ok frames) :
-    framePositionsOf ((List.range nonempty.length).map P) frames = some (frames.map (fun f => P f.plane)) :=
+    framePositionsOf ((List.range nonempty.length).map P) frames = some (frames.map (fun f => P f.posPlane)) ∧
+      ∀ f ∈ frames, f.posPlane = f.plane :=
   framePositions_of_segFrames P rowCos colCos nonempty hinj om segs present frames hok
 
 /-- **For a volume the stored position of every frame is the affine image of its array index**: frame `f` carries
 `pixel_array[f.plane]` and is recorded at `affine · (f.plane, 0, 0)`, for every admissible geometry (any rotation, either
-handedness, anisotropic spacing), every shape and every emptiness pattern. -/
+handedness, anisotropic spacing), every shape and every emptiness pattern.  (Uses `posPlane = plane`, see
+`stored_frame_positions`; that `get_plane_positions()[k] = affine · (k, 0, 0)` is the fingerprint `volume_records_its_affine`.) -/
 theorem volume_frame_positions_are_affine_images {g : Geom} (hg : Admissible g) (nonempty : List Bool) (om : Bool)
     (segs : List (Option Nat)) (present : Option Nat → Nat → Bool) :
     ∃ frames, segFrames ((List.range nonempty.length).map (planePosition g)) g.d2 g.d1 nonempty om segs present = .ok frames ∧
       framePositionsOf ((List.range nonempty.length).map (planePosition g)) frames
         = some (frames.map (fun f => g.aff.apply (f.plane : Int) 0 0)) ∧
-      ∀ f ∈ frames, f.plane < nonempty.length := by
+      ∀ f ∈ frames, f.plane < nonempty.length ∧ f.posPlane = f.plane := by
   have hinj : ∀ a < nonempty.length, ∀ b < nonempty.length,
       distOf (planePosition g) g.d2 g.d1 a = distOf (planePosition g) g.d2 g.d1 b → a = b := fun a _ b _ h => volume_dist_inj hg a b h
   obtain ⟨frames, hok, hmem⟩ := mem_segFrames (planePosition g) g.d2 g.d1 nonempty hinj om segs present
-  refine ⟨frames, hok, framePositions_of_segFrames (planePosition g) g.d2 g.d1 nonempty hinj om segs present frames hok, ?_⟩
-  intro f hf
-  exact keptPlanes_bound nonempty om f.plane ((hmem f).mp hf).2.1
+  obtain ⟨hpos, hpp⟩ := framePositions_of_segFrames (planePosition g) g.d2 g.d1 nonempty hinj om segs present frames hok
+  refine ⟨frames, hok, ?_, ?_⟩
+  · rw [hpos]
+    congr 1
+    apply List.map_congr_left
+    intro f hf
+    rw [hpp f hf]
+    rfl
+  · intro f hf
+    exact ⟨keptPlanes_bound nonempty om f.plane ((hmem f).mp hf).2.1, hpp f hf⟩
 
 /-- **Dimension index values follow the normal**: of two stored frames the one with the smaller dimension index value
 lies before the other along the normal, and conversely — DimensionIndexValues order the frames in space. -/
@@ -1096,7 +1110,7 @@ theorem volume_dimension_index_without_omission {g : Geom} (hg : Admissible g) (
   rw [hok'] at hok
   simp only [Except.ok.injEq] at hok
   subst hok
-  obtain ⟨_, hk, _, hdiv⟩ := (hmem f).mp hf
+  obtain ⟨_, hk, _, hdiv, _⟩ := (hmem f).mp hf
   have hkept : keptPlanes nonempty false = List.range nonempty.length := by
     rw [keptPlanes_eq]; simp [omitEff]
   rw [hkept] at hk hdiv
@@ -1132,16 +1146,26 @@ theorem volume_dimension_index_without_omission {g : Geom} (hg : Admissible g) (
 
 /-- **Bridge (tie T): the loop of the model uses the regenerated expressions of the current source** — the skip test
 (`segment_number is not None`, `omit_empty_frames and not np.any(segment_array)`), the dimension index value
-(`[plane_dim_ind]`), the first value of `enumerate(plane_sort_index, 1)` and the `omit_empty_frames` the loop sees after
-the all-empty decision (TC03loop). -/
+(`[plane_dim_ind]`), the index bookkeeping of the loop body in source order (`Gen.frameBookkeeping`: the index into
+`pixel_array`, the index into `plane_positions`, the dimension index value — the triple `planeFrames` writes into a
+frame's `plane`, `posPlane`, `div`), the first value of `enumerate(plane_sort_index, 1)` and the `omit_empty_frames` the
+loop sees after the all-empty decision (TC03loop).  The target refuses (`Unsupported`) when the loop body, the branches it
+descends into, `get_index_values` or the set of mentions of `plane_sort_index` / `plane_index` / `plane_dim_ind` contain a
+statement it does not consume. -/
 theorem frame_loop_uses_the_source :
     (∀ (s : Option Nat) (om present : Bool), frameSkipped (s.map Int.ofNat) om present = .ok (skipped s om present)) ∧
     (∀ d p : Int, framePlaneIndexValue d p = .ok d) ∧
+    (∀ d p : Int, frameBookkeeping d p = .ok (p, p, d)) ∧
+    (∀ (s : Option Nat) (om : Bool) (present : Option Nat → Nat → Bool) (d : Int) (p : Nat) (t : List Nat),
+      skipped s om (present s p) = false →
+      planeFrames s om present d (p :: t) = ⟨s, p, p, d⟩ :: planeFrames s om present (d + 1) t) ∧
     frameEnumStart = 1 ∧
     (∀ (nonempty : List Bool) (om : Bool), omitEffective om (nonemptyIdx nonempty).isEmpty = .ok (omitEff nonempty om)) ∧
     (∀ (segs : List (Option Nat)) (psi : List Nat) (om : Bool) (present : Option Nat → Nat → Bool),
       frameLoop segs psi om present = segs.flatMap (fun s => planeFrames s om present frameEnumStart psi)) :=
-  ⟨frameSkipped_eq, framePlaneIndexValue_eq, frameEnumStart_eq, omitEffective_eq, fun _ _ _ _ => rfl⟩
+  ⟨frameSkipped_eq, framePlaneIndexValue_eq, frameBookkeeping_eq,
+   fun s om present d p t h => by simp [planeFrames, h],
+   frameEnumStart_eq, omitEffective_eq, fun _ _ _ _ => rfl⟩
 
 set_option maxRecDepth 20000 in
 /-- **Fingerprint: the frame loop and the plane order** (`frameLoop`, `planeFrames`, `includedPlanes`, `planeSortIndex`,
@@ -1171,7 +1195,21 @@ theorem frame_loop_wiring :
      wiringLoop.lookup "sort.call.index_convention" = some "VOLUME_INDEX_CONVENTION" ∧
      wiringLoop.lookup "sort.call.image_orientation"
        = some "plane_orientation[0].ImageOrientationPatient if self._coordinate_system == CoordinateSystemNames.PATIENT else None" ∧
-     wiringLoop.lookup "sort.call.result" = some "(plane_position_values, plane_sort_index)") ∧
+     wiringLoop.lookup "sort.call.result" = some "(plane_position_values, plane_sort_index)" ∧
+     wiringLoop.lookup "sort.assignments"
+       = some "[ind for ind in plane_sort_index if ind in included_plane_in | np.arange(len(raw_plane_positions)) | np.array([0]) | self.DimensionIndexSequence.get_index_values(plane_positions" ∧
+     wiringLoop.lookup "tile.sparse"
+       = some "pos = plane_positions[plane_index][0] ; row_offset = pos.RowPositionInTotalImagePixelMatrix ; column_offset = pos.ColumnPositionInTotalImagePixelMatrix" ∧
+     wiringLoop.lookup "tile.call"
+       = some "pixel_array[0], row_offset=row_offset, column_offset=column_offset, tile_rows=self.Rows, tile_columns=self.Columns" ∧
+     wiringLoop.lookup "tile.full.row_offset" = some "int(plane_position_values[plane_index, row_dim_index])" ∧
+     wiringLoop.lookup "tile.full.column_offset" = some "int(plane_position_values[plane_index, col_dim_index])" ∧
+     wiringLoop.lookup "slide.plane_pos_val" = some "plane_position_values[plane_index]" ∧
+     wiringLoop.lookup "slide.index_values"
+       = some "dimension_index_values = [int(np.where(unique_dimension_values[idx] == pos)[0][0] + 1) for idx, pos in enumerate(plane_pos_val)]" ∧
+     wiringLoop.lookup "slide.column_swap" = some "plane_position_values[:, [1, 0, 2, 3, 4]]" ∧
+     wiringLoop.lookup "slide.unique_dimension_values"
+       = some "[np.unique(plane_position_values[included_plane_indices, index], axis=0) for index in range(plane_position_values.shape[1])] | [None]") ∧
     (wiringLoop.lookup "pffg.all_index_values" = some "dimension_index_values | [int(segment_number)] + dimension_index_values" ∧
      wiringLoop.lookup "pffg.all_index_values_if" = some "segment_number is None" ∧
      wiringLoop.lookup "pffg.elements"
@@ -1187,7 +1225,9 @@ theorem frame_loop_wiring :
        = some "origin_distances = normal_vector[None] @ image_positions.T ; origin_distances = origin_distances.squeeze(0) ; return origin_distances" ∧
      wiringDistances.lookup "normal.right_handed" = some "n = np.cross(rotation_columns[0], rotation_columns[1])") := by
   refine ⟨⟨by decide, by decide, by decide, by decide⟩, ⟨by decide, by decide, by decide, by decide⟩,
-    ⟨by decide, by decide, by decide, by decide, by decide⟩, ⟨by decide, by decide, by decide, by decide⟩,
+    ⟨by decide, by decide, by decide, by decide, by decide⟩,
+    ⟨by decide, by decide, by decide, by decide, by decide, by decide, by decide, by decide, by decide, by decide, by decide, by decide,
+     by decide⟩,
     ⟨by decide, by decide, by decide⟩, ⟨by decide, by decide, by decide, by decide, by decide, by decide⟩,
     ⟨by decide, by decide⟩⟩
 
@@ -1195,8 +1235,9 @@ theorem frame_loop_wiring :
 
 For EVERY matrix size `R × C`, tile size `tr × tc` (non-square, with remainders), orientation, pixel spacing, emptiness
 pattern and segment layout.  `tileGrid` / `tilePosition` / `rankOf` are hand-written from
-`compute_tile_positions_per_frame` (owned by C10 / C12, whose bridges pin its arithmetic) and the constructor's
-`np.unique` look-up; they are tied to the code by the correspondence stream `tiled/frames`, `tiledpos/frames` (L1: segment,
+`compute_tile_positions_per_frame` and the constructor's `np.unique` look-up; `tileGrid` / `tilePosition` are bridged to the
+regenerated expressions of that function (`tiles_use_the_source`: T7b, T7g, TC10f, TC03rot), `rankOf` and the loop are tied to
+the code by the correspondence stream `tiled/frames`, `tiledpos/frames` (L1: segment,
 offset, slide position and DimensionIndexValues of every stored tile in stored order — from a mask, from a SLIDE volume, from
 individually handed-over tiles in any order) and the skip test by `frame_loop_uses_the_source`. -/
 
@@ -1302,6 +1343,23 @@ theorem kept_tiles_are_stored (origin rowCos colCos : V3) (psRow psCol : Rat) (R
     ((keptTiles (tilesOf origin rowCos colCos psRow psCol R C tr tc) nonempty om).map (fun p => p.1)) _ q i hq hsk
   exact ⟨f, List.mem_flatMap.mpr ⟨s, hs, hf⟩, hr⟩
 
+/-- **Bridge 5 (tie T for the tiles): grid and positions of the model are the regenerated ones of
+`compute_tile_positions_per_frame`** — the tile counts (`Gen.tilesPerAxisFloor`, T7b), the running order and the 0-based /
+1-based offset pairs (`Gen.tileGridRanges`, `Gen.tileOffsetOf`, T7g; regenerated for C12) and, for the slide coordinates,
+the `PixelToReferenceTransformer` = `create_affine_matrix_from_attributes` with its default index convention
+(`Gen.affineDefaultConvention`, TC10f, regenerated for C10) and the column selections of `create_rotation_matrix`
+(`Gen.rotSelect`, TC03rot) applied to the regenerated 0-based pixel index pair of the tile.  Hand-written remainders:
+`np.meshgrid(…, indexing='xy').reshape(2, -1).T` as a nested enumeration (pinned textually by T7g), the matrix-vector
+product of the transformer. -/
+theorem tiles_use_the_source :
+    (∀ R C tr tc : Nat, 0 < R → 0 < C → 0 < tr → 0 < tc → tileGrid R C tr tc = tileGridGen R C tr tc) ∧
+    (∀ (origin rowCos colCos : V3) (psRow psCol : Rat) (i j tr tc : Nat),
+      match tileOffsetOf (j : Int) (i : Int) tr tc with
+      | .ok (p0, p1, c1, r1) =>
+        tilePosition origin rowCos colCos psRow psCol r1 c1 = pixToRefGen origin rowCos colCos psRow psCol p0 p1
+      | .error _ => False) :=
+  ⟨tileGrid_eq_gen, tilePosition_eq_gen⟩
+
 /-! ## Non-vacuity: the hypotheses are satisfiable by concrete, non-trivial inputs -/
 
 /-- a left-handed, anisotropic, axis-swapped geometry (directions: d0 = −z, d1 = x, d2 = y) -/
@@ -1376,7 +1434,7 @@ def presentEx : Option Nat → Nat → Bool := fun s k => (s == some 1 && k != 2
 example : ∀ a < 4, ∀ b < 4, distOf (planePosition gLeft) gLeft.d2 gLeft.d1 a = distOf (planePosition gLeft) gLeft.d2 gLeft.d1 b → a = b :=
   fun a _ b _ h => volume_dist_inj (by constructor <;> (try constructor) <;> norm_num [gLeft, dot]) a b h
 example : segFrames ((List.range 4).map (planePosition gLeft)) gLeft.d2 gLeft.d1 [true, false, true, true] true
-    (segmentsIterable false [1, 2]) presentEx = .ok [⟨some 1, 3, 1⟩, ⟨some 1, 0, 3⟩, ⟨some 2, 3, 1⟩] := by decide +kernel
+    (segmentsIterable false [1, 2]) presentEx = .ok [⟨some 1, 3, 3, 1⟩, ⟨some 1, 0, 0, 3⟩, ⟨some 2, 3, 3, 1⟩] := by decide +kernel
 example : ([1, 2] : List Nat).Nodup ∧ (segmentsIterable false [1, 2]).Pairwise (fun a b => segRank a < segRank b) ∧
     (segmentsIterable true [1, 2]).Pairwise (fun a b => segRank a < segRank b) := by decide
 example : segFrames ((List.range 3).map (fun _ => (⟨0, 0, 1⟩ : V3))) ⟨1, 0, 0⟩ ⟨0, 1, 0⟩ [true, true, true] false [none] (fun _ _ => true)
@@ -1392,5 +1450,8 @@ example : volumeGeometryTiled ⟨10, 20, 0⟩ ⟨0, -1, 0⟩ ⟨-1, 0, 0⟩ (1 /
   norm_num [volumeGeometryTiled, defaultSpacing, fromAttributes, orthogonalCols, normal, cross, smul, dot, rabs, tolEq]
 
 example : ([true, false, true, true] : List Bool).length = ([2, 0, 1, 3] : List Int).length := rfl
+
+example : tileGridGen 6 8 4 4 = [(1, 1), (1, 5), (5, 1), (5, 5)] ∧ tileGrid 6 8 4 4 = [(1, 1), (1, 5), (5, 1), (5, 5)] := by decide
+example : frameBookkeeping 3 7 = .ok (7, 7, 3) := rfl
 
 end HdVerif.C03
